@@ -49,7 +49,7 @@ CLAIMED = {
  'C11': dict(
     text='Slice: the JSON string writer (generic_append, used for every key and string value): opening quote, every input byte represented exactly once and in order (verbatim only if it is not a quotation mark, '
          'reverse solidus or control character, otherwise by exactly its escape), closing quote. The string-token parser parse_string: terminates on every input without reading past the stream, and an accepted string '
-         'contains no raw control character, only the RFC 8259 escapes, surrogate escapes only as first/second pairs, and passed UTF-8 validation. The tokenizer is under contract too: next() yields a structural character only for that very byte, true/false/null only when spelled in full, a string or number token only through parse_string/parse_number started at the deciding byte, otherwise an error or the end of input; check() consumes exactly the literal; read_4_digits accepts exactly four hexadecimal digits and returns their value.',
+         'contains no raw control character, only the RFC 8259 escapes, surrogate escapes only as first/second pairs, and passed UTF-8 validation. The tokenizer is under contract too: next() yields a structural character only for that very byte, true/false/null only when spelled in full, a string or number token only through parse_string/parse_number started at the deciding byte, otherwise an error or the end of input; check() consumes exactly the literal; read_4_digits accepts exactly four hexadecimal digits and returns their value. The parser state machine parse_stream (tokens from an oracle, value operations as recorders) terminates for every token sequence, replaces the target exactly when the parse succeeds (a failed parse leaves it untouched), fails on a duplicate key, never touches an empty stack and keeps the nesting within 512.',
     note=TRUST + 'Not covered: nesting bound, unique keys, number parsing/printing (iostream), tree construction, typed extraction, locale. The stream buffer, str, read_4_digits and utf8::validate are stubs.',
     design='4 (C11)', technique='cbmc code contracts (dfcc) + loop contracts; Appender/stream stubs asserting what each append may contain'),
  'C12': dict(
@@ -60,7 +60,7 @@ CLAIMED = {
     design='4 (C01/C02/C12)', technique='cbmc code contracts (dfcc) + nested loop contracts with a conservation invariant; bounded unwinding for byte-exactness'),
  'C13': dict(
     text='is_file_prefix is proved (unbounded) to match aliases / the document root only on whole path components. normalize_path is decided by a BOUNDED stand-in: for every request path of up to 8 bytes '
-         'its result equals a reference component-stack normalisation (leading /, no ., .., empty component, never above the root). A genuine defect found this way (the / before the component after a .. was lost) is fixed. is_in_root: with symlink checking on, a path is accepted only if root/path was resolved and the RESOLVED name passes the whole-component prefix test against the root.',
+         'its result equals a reference component-stack normalisation (leading /, no ., .., empty component, never above the root). A genuine defect found this way (the / before the component after a .. was lost) is fixed. is_in_root: with symlink checking on, a path is accepted only if root/path was resolved and the RESOLVED name passes the whole-component prefix test against the root. file_server::main: whatever the request, the only paths ever opened, streamed or listed are results of a successful check_in_document_root (provenance bit per path), the index file of a directory included.',
     note=TRUST + 'The check for path normalisation is a BOUNDED stand-in (two-pointer in-place compaction, outside the reach of cbmc 6.11 loop contracts) and is not counted among the discharged obligations; only is_file_prefix is proved without bound. Not covered: alias loop and realpath/symlink logic of '
          'check_in_document_root, percent-decoding order, directory listings, file-system behaviour.',
     design='4 (C13)', technique='cbmc code contract for is_file_prefix; bounded unwinding vs reference normalisation for normalize_path'),
